@@ -143,6 +143,25 @@ theorem C19_retry_exact (c : Cfg) (s m : Nat) (hR : .retry ∈ c.feats) (hnd : c
     · intro hk
       exact (e1.1 (by omega)).1
 
+/-- **Retry counts first.** An entry whose on_enter callback raises (`enterFailOp`: the trigger ends with that
+exception, the caller may catch it and try again) has been counted like any other: it leaves exactly the
+counters, hook attributes and object number of the same entry with well-behaved callbacks, because
+`Retry.enter` does `retry_counts.update` *before* `super().enter`.  `isSelf`/`isForeign` therefore treat
+`Op.enterFail` like `Op.enter`, and `C19_retry_exact` above holds verbatim for histories `mid` in which any
+number of the `k` self re-entries ended in a raising enter callback: they use up the limit all the same.
+The same theorem covers re-entries fired from the state's own enter callback on an unqueued machine: the ops
+of the nested trigger simply follow in the history, each seeing the count of the entry before it. -/
+theorem C19_retry_counts_raising_entry (c : Cfg) (s m src : Nat) (st : FS) :
+    (enterFailOp c s m src st).1.counts = (enterOp c s m src st).1.counts ∧
+    (enterFailOp c s m src st).1.hooks = (enterOp c s m src st).1.hooks ∧
+    (enterFailOp c s m src st).1.fresh = (enterOp c s m src st).1.fresh ∧
+    ((enterOp c s m src st).2 = .entered → (enterFailOp c s m src st).2 = .aborted) ∧
+    ((enterOp c s m src st).2 ≠ .entered → enterFailOp c s m src st = enterOp c s m src st) := by
+  refine ⟨(enterFailOp_fields c s m src st).1, (enterFailOp_fields c s m src st).2.1,
+    (enterFailOp_fields c s m src st).2.2, ?_, ?_⟩
+  · intro h; simp [enterFailOp, h]
+  · intro h; simp [enterFailOp, h]
+
 /-- **Retry on hierarchical machines, full strength** — `RetryExactScoped` (Model/Features.lean): the clause
 with the sources as `Retry.enter` reads them, i.e. the declared (possibly scope-relative) name made global with
 the scope of the declaration, for every naming function `full`.  (Former finding F-C19-retry-local-source,
@@ -286,6 +305,9 @@ example : let c : Cfg := { feats := [.retry], args := fun _ => { retries := 1 },
     ((enterDeclared c full 12 0 ⟨1, 2⟩ (runOps c [.enter 12 0 (full 0 3), .enter 12 0 (full 1 2)] FS.init)).2,
      (enterDeclared c full 12 0 ⟨1, 2⟩ (runOps c [.enter 12 0 (full 0 3)] FS.init)).2)
       = (.failed, .entered) := by decide
+-- retries = 2: a re-entry whose enter callback raises uses up the limit like any other
+example : outcomes (cfg all) [.enter 1 0 0, .enterFail 1 0 1, .enterFail 1 0 1, .enter 1 0 1] FS.init
+    = [.entered, .aborted, .aborted, .failed] := by decide
 -- FeatureFree is inhabited on a machine with every feature
 example : FeatureFree (cfg all) 0 := ⟨rfl, fun _ => .inl (by decide)⟩
 
